@@ -1408,6 +1408,17 @@ func (interpreter *Interpreter) declareNonEnumCompositeValue(
 						// activations existing at the time when the event was defined and use them here
 						declarationActivation,
 					)
+
+					// The default arguments are not passed through an invocation expression,
+					// so convert and box them to the parameter types here (e.g. `x: Int? = self.x`)
+					for i, argument := range invocation.Arguments {
+						parameterType := compositeType.ConstructorParameters[i].TypeAnnotation.Type
+						invocation.Arguments[i] = ConvertAndBox(
+							invocationInterpreter,
+							argument,
+							parameterType,
+						)
+					}
 				}
 
 				for i, argument := range invocation.Arguments {
